@@ -34,8 +34,11 @@ def run(ctx):
         voc = syms[:k]
         if '[nop]' not in voc:
             voc[rng.randrange(k)] = '[nop]'
-        stoi = {s: i for i, s in enumerate(voc)}
-        itos = {i: s for s, i in stoi.items()}
+        pairs = list(enumerate(voc))
+        rng.shuffle(pairs)                      # a bijection is a bijection whatever order the dict was filled in
+        stoi = {s: i for i, s in pairs}
+        rng.shuffle(pairs)
+        itos = {i: s for i, s in pairs}
         if it % 3 == 0:
             # one long-lived vocabulary object, changed in place between calls (grows, shrinks, is re-numbered)
             shared_stoi.clear()
